@@ -44,6 +44,7 @@ def snap_row(r):
 class Tracer:
     def __init__(self):
         self.batches = []
+        self.merges = []
         self.cur = None
         self._saved = []
         self._impute_cur = None
@@ -180,6 +181,19 @@ class Tracer:
             return res
 
         self._patch(PostProcess, "fit", fit)
+
+        # every real call of merge_stats(stats, new_stats): the caller's dictionary before and after (ordered pairs)
+        if hasattr(bal, "merge_stats"):
+            orig_merge_stats = bal.merge_stats
+
+            def merge_stats(stats, new_stats, *a, **k):
+                before = None if stats is None else list(stats.items())
+                new = None if new_stats is None else list(new_stats.items())
+                r = orig_merge_stats(stats, new_stats, *a, **k)
+                T.merges.append({"before": before, "new": new, "after": None if stats is None else list(stats.items())})
+                return r
+
+            self._patch(bal, "merge_stats", merge_stats)
         return self
 
     def __exit__(self, *a):
